@@ -393,6 +393,10 @@ impl ViCut {
 		let Some(verb) = cmd.verb().map(|v| v.1.clone()) else {
 			return false
 		};
+		if let Verb::ReplaceCharInplace(_,count) = verb {
+			// '3rx' with fewer than three characters left on the line replaces nothing
+			return !self.current_buffer().replace_fits(count as usize)
+		}
 		let can_fail = |m: &MotionCmd| matches!(m.1,
 			Motion::CharSearch(..) |
 			Motion::WordMotion(..) |
